@@ -64,6 +64,10 @@ func syncPlan(prop, tier string, seed uint64) (runs []syncRun, crashIsViolation 
 			p := base
 			p.Split, p.Peers = true, true
 			runs = append(runs, syncRun{"2 replicas, split fetch/merge, peer remotes", p, 4, 60 * time.Second})
+			// deeper with a smaller alphabet: repeated concurrent rounds (a merge on top of a merge the
+			// other side has not seen needs 7 steps)
+			o := syncw.Params{Replicas: 2, Oracles: "c02", Seed: seed, OneEdit: true}
+			runs = append(runs, syncRun{"2 replicas, single-operation edits only: repeated concurrent rounds", o, 10, 90 * time.Second})
 		} else {
 			runs = []syncRun{{"2 replicas, atomic pull", base, 8, 15 * time.Minute}}
 			p := base
